@@ -1202,6 +1202,9 @@ class SmtLibParser(object):
             else:
                 symbols[name] = symbol
         self.cache.update(symbols)
+        # The terms echoed by the solver can mention user-defined sorts
+        # (e.g., in the binders of a quantifier)
+        self.cache.update(self.env.type_manager._custom_types_decl)
         tokens = Tokenizer(script, interactive=self.interactive)
         res = []
         self.consume_opening(tokens, "<main>")
